@@ -152,7 +152,8 @@ M("c02-wfc-restores-with-default", "C02", "R2.poll-state-serdes", "operation/wai
                     serdes=self.config.serdes,""", """                current_state = deserialize(
                     serdes=None,""")
 M("c02-child-raises-original", "C02", "R1.exception-class-agreement", "operation/child.py",
-  "            raise error_object.to_callable_runtime_error() from e\n", "            raise\n")
+  "            # dataplane.\n            if isinstance(e, InvocationError):\n                raise\n            raise error_object.to_callable_runtime_error() from e\n",
+  "            # dataplane.\n            if isinstance(e, InvocationError):\n                raise\n            raise\n")
 M("c02-benign-local-rename", "C02", "", "operation/step.py",
   "        raise error_object.to_callable_runtime_error()\n",
   "        runtime_error = error_object.to_callable_runtime_error()\n        raise runtime_error\n", expect="silent")
@@ -301,10 +302,11 @@ M("c12-packaged-no-floor", "C12", "R4.packaged-strategy-shape", "retries.py",
 M("c12-packaged-no-cutoff", "C12", "R4.packaged-strategy-shape", "retries.py",
   "        if attempts_made >= config.max_attempts:\n            return RetryDecision.no_retry()\n", "")
 M("c12-packaged-no-cap", "C12", "R4.packaged-strategy-shape", "retries.py",
-  """        base_delay: float = min(
-            config.initial_delay_seconds * (config.backoff_rate ** (attempts_made - 1)),
-            config.max_delay_seconds,
-        )""", """        base_delay: float = config.initial_delay_seconds * (config.backoff_rate ** (attempts_made - 1))""")
+  """            base_delay: float = min(
+                config.initial_delay_seconds
+                * (config.backoff_rate ** (attempts_made - 1)),
+                config.max_delay_seconds,
+            )""", """            base_delay: float = config.initial_delay_seconds * (config.backoff_rate ** (attempts_made - 1))""")
 M("c12-wait-strategy-no-floor", "C12", "R4.packaged-strategy-shape", "waits.py",
   "        final_delay: int = max(1, math.ceil(delay_with_jitter))", "        final_delay: int = math.ceil(delay_with_jitter)")
 M("c12-decline-but-suspend", "C12", "R2.decision-implies-effect", "operation/step.py",
@@ -317,8 +319,8 @@ M("c12-benign-cutoff-inverted", "C12", "", "retries.py",
 
 # ----------------------------------------------------------------------------- C13
 M("c13-always-initial-state", "C13", "R1.state-threading", "operation/wait_for_condition.py",
-  "        if checkpointed_result.is_started_or_ready() and checkpointed_result.result:",
-  "        if checkpointed_result.is_started() and checkpointed_result.result:")
+  "            checkpointed_result.is_started_or_ready()\n            and checkpointed_result.result is not None",
+  "            checkpointed_result.is_started()\n            and checkpointed_result.result is not None")
 M("c13-records-old-state", "C13", "R3.decision-implies-effect", "operation/wait_for_condition.py",
   """            serialized_state = serialize(
                 serdes=self.config.serdes,
@@ -532,8 +534,8 @@ M("c06-consumer-continues", "C06", "R1.consumer-stops", "state.py",
 M("c06-suspend-is-exception", "C06", "R3.base-exception-only", "exceptions.py",
   "class SuspendExecution(BaseException):", "class SuspendExecution(Exception):")
 M("c06-wrapper-pending-on-bte", "C06", "R5.wrapper-outcome", "execution.py",
-  "                raise bg_error.source_exception from bg_error\n",
-  "                return DurableExecutionInvocationOutput(\n                    status=InvocationStatus.PENDING\n                ).to_dict()\n")
+  "                    return handle_checkpoint_error(bg_error.source_exception).to_dict()\n                raise bg_error.source_exception from bg_error\n",
+  "                    return handle_checkpoint_error(bg_error.source_exception).to_dict()\n                return DurableExecutionInvocationOutput(\n                    status=InvocationStatus.PENDING\n                ).to_dict()\n")
 M("c06-child-swallows-base", "C06", "R", "operation/child.py",
   "        except SuspendExecution:\n            # Don't checkpoint SuspendExecution - let it bubble up\n            raise\n",
   "        except SuspendExecution:\n            # Don't checkpoint SuspendExecution - let it bubble up\n            raise\n        except BackgroundThreadError:\n            return None  # type: ignore\n")
@@ -614,9 +616,9 @@ M("c09-index-off-by-one", "C09", "R1.faithful-item-per-branch", "concurrency/exe
 M("c09-failed-reported-succeeded", "C09", "R1.faithful-item-per-branch", "concurrency/executor.py",
   """                            executable.index,
                             BatchItemStatus.FAILED,
-                            error=ErrorObject.from_exception(executable.error),""", """                            executable.index,
+                            # a branch fails""", """                            executable.index,
                             BatchItemStatus.SUCCEEDED,
-                            error=ErrorObject.from_exception(executable.error),""")
+                            # a branch fails""")
 M("c09-second-unbounded-pool", "C09", "R2.", "concurrency/executor.py",
   "        thread_executor = ThreadPoolExecutor(max_workers=max_workers)", "        thread_executor = ThreadPoolExecutor(max_workers=len(self.executables))")
 M("c09-tolerance-ge-one-side", "C09", "R3.same-threshold-atoms", "concurrency/models.py",
@@ -640,9 +642,11 @@ M("c07-new-unbounded-wait", "C07", "R4.blocking-call-registered", "concurrency/e
 M("c07-wait-start-async", "C07", "R1.record-before-suspend", "operation/wait.py",
   "            self.state.create_checkpoint(operation_update=operation, is_sync=True)",
   "            self.state.create_checkpoint(operation_update=operation, is_sync=False)")
-M("c07-resubmit-before-reset", "C07", "R5.reset-before-resubmit", "concurrency/executor.py",
-  "                            exe_state.reset_to_pending()\n                            self.resubmit_callback(exe_state)",
-  "                            self.resubmit_callback(exe_state)\n                            exe_state.reset_to_pending()")
+M2("c07-resubmit-before-reset", "C07", "R5.reset-before-resubmit", [
+    {"file": "concurrency/executor.py", "old": "                            exe_state.reset_to_pending()\n                            to_resubmit = exe_state",
+     "new": "                            to_resubmit = exe_state"},
+    {"file": "concurrency/executor.py", "old": "                    self.resubmit_callback(to_resubmit)\n",
+     "new": "                    self.resubmit_callback(to_resubmit)\n                    to_resubmit.reset_to_pending()\n"}])
 M("c07-wrapper-suspend-returns-succeeded", "C07", "R3.wrapper-maps-suspension-to-pending", "execution.py",
   """                return DurableExecutionInvocationOutput(
                     status=InvocationStatus.PENDING
@@ -941,7 +945,7 @@ M("c20-update-drops-wait-options", "C20", "R1.field-is-written", "lambda_service
             result["WaitOptions"] = self.wait_options.to_dict()
 """, "")
 M("c20-json-reader-forgets-path", "C20", "R4.json-reader-converts-all-timestamps", "lambda_service.py",
-  """        if ms := data_copy.get("EndTimestamp"):
+  """        if (ms := data_copy.get("EndTimestamp")) is not None:
             data_copy["EndTimestamp"] = TimestampConverter.from_unix_millis(ms)
 
 """, "")
@@ -1184,8 +1188,20 @@ M("c13-execution-error-not-recorded", "C13", "R5.failed-poll-is-recorded", "oper
             # Mark as failed""")
 M("c15-batch-item-truthiness", "C15", "R9.batch-item-read-as-is", "concurrency/models.py",
   '            result=data.get("result"),', '            result=data.get("result") or None,')
-M("c16-char-count-vs-byte-limit", "C16", "R5.size-measured-in-bytes", "execution.py",
-  "                serialized_result = json.dumps(result)\n                # large response", "                serialized_result = json.dumps(result, ensure_ascii=False)\n                # large response")
+M2("c16-char-count-vs-byte-limit", "C16", "R5.size-measured-in-bytes", [
+    {"file": "execution.py", "old": "                serialized_result = json.dumps(result)\n                # large response",
+     "new": "                serialized_result = json.dumps(result, ensure_ascii=False)\n                # large response"},
+    {"file": "execution.py", "old": """                        ).to_dict()
+                    )
+                )
+                if serialized_result and response_size""", "new": """                        ).to_dict(),
+                        ensure_ascii=False,
+                    )
+                )
+                if serialized_result and response_size"""}])
+M("benign-result-not-ascii-escaped", "ALL", "", "execution.py",
+  "                serialized_result = json.dumps(result)\n                # large response", "                serialized_result = json.dumps(result, ensure_ascii=False)\n                # large response", expect="silent",
+  desc="the result keeps its non-ASCII characters; the response is still measured through an escaping json.dumps (an over-estimate of its UTF-8 size)")
 M("c17-ready-counts-as-completed", "C17", "R4.terminal-set", "state.py",
   """                    and op.status
                     in {
@@ -1203,8 +1219,8 @@ M("c19-reset-while-queued", "C19", "R4.unbreak-only-with-empty-queue", "threadin
   "            if self._waiters:\n                msg = (\n                    \"Cannot reset lock", "            if self._waiters and not self._is_broken:\n                msg = (\n                    \"Cannot reset lock")
 M2("c20-timetuple-ignores-offset", "C20", "R4.timestamp-conversion-preserves-instant", [
     {"file": "lambda_service.py", "old": "import datetime\n", "new": "import calendar\nimport datetime\n"},
-    {"file": "lambda_service.py", "old": "        return int(dt.timestamp() * 1000) if dt else None",
-     "new": "        return (calendar.timegm(dt.timetuple()) * 1000 + dt.microsecond // 1000) if dt else None"}])
+    {"file": "lambda_service.py", "old": "        return (dt - _UNIX_EPOCH) // datetime.timedelta(milliseconds=1)",
+     "new": "        return calendar.timegm(dt.timetuple()) * 1000 + dt.microsecond // 1000"}])
 M("c08-id-hasher-published-early", "C08", "R1.id-function-pure", "context.py",
   """        step_id = f"{self._parent_id}-{step}" if self._parent_id else str(step)
         return hashlib.blake2b(step_id.encode()).hexdigest()[:64]""",
@@ -1227,20 +1243,14 @@ M2("benign-id-prefix-hasher-built-in-init", "ALL", "", [
 M2("benign-response-measured-encoded", "ALL", "", [
     {"file": "execution.py", "old": "                serialized_result = json.dumps(result)\n                # large response",
      "new": "                serialized_result = json.dumps(result, ensure_ascii=False)\n                # large response"},
-    {"file": "execution.py", "old": """                if (
-                    serialized_result
-                    and len(serialized_result) > LAMBDA_RESPONSE_SIZE_LIMIT
-                ):
-                    logger.debug(
-                        "Response size (%s bytes) exceeds Lambda limit (%s) bytes). Checkpointing result.",
-                        len(serialized_result),
-                        LAMBDA_RESPONSE_SIZE_LIMIT,
+    {"file": "execution.py", "old": """                        ).to_dict()
                     )
-                    success_operation""", "new": """                if (
-                    serialized_result
-                    and len(serialized_result.encode("utf-8")) > LAMBDA_RESPONSE_SIZE_LIMIT
-                ):
-                    success_operation"""}], expect="silent")
+                )
+                if serialized_result and response_size""", "new": """                        ).to_dict(),
+                        ensure_ascii=False,
+                    ).encode("utf-8")
+                )
+                if serialized_result and response_size"""}], expect="silent")
 M("benign-policy-alias-in-replay", "ALL", "", "concurrency/executor.py",
   "        return BatchResult.from_items(items, self.completion_config)", "        policy = self.completion_config\n        return BatchResult.from_items(items, policy)", expect="silent")
 M("benign-terminal-set-as-complement", "ALL", "", "state.py",
@@ -1252,8 +1262,10 @@ M("benign-terminal-set-as-complement", "ALL", "", "state.py",
                         OperationStatus.STOPPED,
                         OperationStatus.TIMED_OUT,
                     }""", """                    and op.status not in {OperationStatus.STARTED, OperationStatus.PENDING, OperationStatus.READY}""", expect="silent")
-M("benign-to-millis-via-utctimetuple", "ALL", "", "lambda_service.py",
-  "        return int(dt.timestamp() * 1000) if dt else None", "        return int(round(dt.timestamp(), 3) * 1000) if dt else None", expect="silent")
+M2("benign-to-millis-via-utctimetuple", "ALL", "", [
+    {"file": "lambda_service.py", "old": "import datetime\n", "new": "import calendar\nimport datetime\n"},
+    {"file": "lambda_service.py", "old": "        return (dt - _UNIX_EPOCH) // datetime.timedelta(milliseconds=1)",
+     "new": "        return calendar.timegm(dt.utctimetuple()) * 1000 + dt.microsecond // 1000"}], expect="silent")
 
 # ----------------------------------------------------------------------------- round 4
 M("c02-error-codec-drops-falsy", "C02", "R4.error-codec-keeps-set-fields", "lambda_service.py",
